@@ -152,6 +152,15 @@ func (x *Exec) inlinable(fn *ssa.Function) bool {
 
 func (x *Exec) inlineCall(fr *Frame, st *State, in ssa.Instruction, fn *ssa.Function, args []Val, bindings []Val, k Cont) {
 	nf := x.newFrame(fn, fr)
+	// values of concrete type passed for a type parameter are boxed (type parameters are modelled as interfaces)
+	args = append([]Val{}, args...)
+	for i, p := range fn.Params {
+		if _, isTP := p.Type().(*types.TypeParam); isTP && i < len(args) && args[i].K == VTerm && args[i].T.Sort != SIface && args[i].Typ != nil {
+			if _, argTP := args[i].Typ.(*types.TypeParam); !argTP && !types.IsInterface(args[i].Typ) {
+				args[i] = Val{K: VTerm, T: x.makeIface(st, args[i], args[i].Typ), Typ: p.Type()}
+			}
+		}
+	}
 	x.bindParams(st, fn, args)
 	for i, fv := range fn.FreeVars {
 		st.regs[fv] = bindings[i]
@@ -165,6 +174,7 @@ func (x *Exec) inlineCall(fr *Frame, st *State, in ssa.Instruction, fn *ssa.Func
 
 // opaque: a call about which nothing is known except (optionally) a prelude contract.
 func (x *Exec) opaque(fr *Frame, st *State, in ssa.Instruction, site, callee, full string, recv *Val, args []Val, rts []types.Type, havoc bool, k Cont) {
+	x.atCallAsserts(fr, st, in, site, callee, recv, args)
 	for _, a := range args {
 		st.publish(a)
 	}
@@ -172,7 +182,7 @@ func (x *Exec) opaque(fr *Frame, st *State, in ssa.Instruction, site, callee, fu
 		st.publish(*recv)
 	}
 	if havoc {
-		st.havocAll(nil)
+		x.havocOpenWorld(st)
 	}
 	var res []Val
 	for i, rt := range rts {
@@ -184,7 +194,6 @@ func (x *Exec) opaque(fr *Frame, st *State, in ssa.Instruction, site, callee, fu
 	}
 	x.eventSeq++
 	st.events = append(st.events, Event{Site: site, Callee: callee, Full: full, Recv: recv, Args: args, Results: res, ErrIdx: errIndex(rts), Seq: x.eventSeq})
-	x.atCallAsserts(fr, st, in, site, callee, recv, args)
 	k(st, res)
 }
 
@@ -252,6 +261,23 @@ func (x *Exec) invoke(fr *Frame, st *State, in ssa.Instruction, c *ssa.CallCommo
 			})
 		}
 		return
+	}
+	// dynamic type known (value boxed on this path): static dispatch
+	if strings.HasPrefix(recv.T.S, "(iref ") {
+		var tag int
+		if _, err := fmt.Sscanf(recv.T.S, "(iref %d ", &tag); err == nil {
+			if dt, ok := x.enc.tagTypes[tag]; ok {
+				if sel := x.prog.SSA.MethodSets.MethodSet(dt).Lookup(m.Pkg(), m.Name()); sel != nil {
+					if callee := x.prog.SSA.MethodValue(sel); callee != nil && x.prog.moduleFunc(callee) {
+						pv := x.ifacePayload(recv.T, dt)
+						pv.T = Term{strings.TrimSuffix(strings.TrimPrefix(recv.T.S, fmt.Sprintf("(iref %d ", tag)), ")"), SRef}
+						pv.Typ = dt
+						x.staticCall(fr, st, in, callee, append([]Val{pv}, args...), site, k)
+						return
+					}
+				}
+			}
+		}
 	}
 	// open world: contract of the interface method from the prelude, if any
 	full := fmt.Sprintf("(%s).%s", typeName(recvT), m.Name())
@@ -550,7 +576,18 @@ func (x *Exec) callByContract(fr *Frame, st *State, in ssa.Instruction, fn *ssa.
 		o := x.newObl(fnForObl, "pre@"+ct.Key, cl.Label()+" @ "+x.oblLabels[in], unionProps(cl.Props, []string{"C07"}), x.posStr(in.Pos()))
 		st.check(o, t)
 	}
-	// type invariants of the callee's receiver are preconditions too (asserted when the caller is under contract)
+	if ct.Flags["event"] || ct.IsIface {
+		callee0 := ct.Key
+		if i := strings.LastIndex(callee0, "."); i >= 0 {
+			callee0 = callee0[i+1:]
+		}
+		evRecv0, evArgs0 := recv, args
+		if fn != nil && fn.Signature.Recv() != nil && len(args) > 0 {
+			r0 := args[0]
+			evRecv0, evArgs0 = &r0, args[1:]
+		}
+		x.atCallAsserts(fr, st, in, site, callee0, evRecv0, evArgs0)
+	}
 	snapshot := make(map[string]Term, len(st.heap))
 	for k2, v := range st.heap {
 		snapshot[k2] = v
@@ -561,7 +598,7 @@ func (x *Exec) callByContract(fr *Frame, st *State, in ssa.Instruction, fn *ssa.
 		}
 	}
 	if !ct.HasMod && !ct.Flags["pure"] {
-		st.havocAll(nil)
+		x.havocOpenWorld(st)
 	} else {
 		x.havocModifies(st, env, ct)
 	}
@@ -603,8 +640,14 @@ func (x *Exec) callByContract(fr *Frame, st *State, in ssa.Instruction, fn *ssa.
 		if i := strings.LastIndex(callee, "."); i >= 0 {
 			callee = callee[i+1:]
 		}
-		st.events = append(st.events, Event{Site: site, Callee: callee, Full: ct.Key, Recv: recv, Args: args, Results: res, ErrIdx: errIndex(rts), Seq: x.eventSeq})
-		x.atCallAsserts(fr, st, in, site, callee, recv, args)
+		evRecv := recv
+		evArgs := args
+		if fn != nil && fn.Signature.Recv() != nil && len(args) > 0 {
+			r0 := args[0]
+			evRecv = &r0
+			evArgs = args[1:]
+		}
+		st.events = append(st.events, Event{Site: site, Callee: callee, Full: ct.Key, Recv: evRecv, Args: evArgs, Results: res, ErrIdx: errIndex(rts), Seq: x.eventSeq})
 	}
 	k(st, res)
 }
@@ -862,7 +905,7 @@ func (x *Exec) builtinAppend(fr *Frame, st *State, in ssa.Instruction, c *ssa.Ca
 	ncap := x.enc.Fresh("append.cap", SInt)
 	alloc := st.hget("alloc", SArr(SRef, SBool))
 	inPlace := And(Eq(nb, dst.Parts[0].T), Eq(noff, dst.Parts[1].T), Eq(ncap, dst.Parts[3].T), app(SBool, "<=", newLen, dst.Parts[3].T), Not(Eq(dst.Parts[0].T, TNull)))
-	freshB := And(Not(Eq(nb, TNull)), Not(Select(alloc, nb)), Eq(noff, IntLit(0)), app(SBool, ">=", ncap, newLen), Eq(app(SInt, "subkind", nb), IntLit(0)))
+	freshB := And(Not(Eq(nb, TNull)), Not(Select(alloc, nb)), Eq(noff, IntLit(0)), app(SBool, ">=", ncap, newLen), Eq(app(SInt, "subkind", nb), IntLit(0)), Eq(app(SRef, "rootof", nb), nb))
 	st.assume(Or(inPlace, freshB))
 	st.assume(app(SBool, ">=", ncap, newLen))
 	st.assume(app(SBool, ">=", noff, IntLit(0)))
@@ -1039,4 +1082,79 @@ func (x *Exec) linkImplementers(fr *Frame, st *State, recvT types.Type, m *types
 			}
 		}
 	}
+}
+
+// reassumeInvs: after a call that havocs the heap, the type invariants of the unit's pointer
+// parameters hold again (callees reach unexported fields only through invariant-preserving methods).
+func (x *Exec) reassumeInvs(st *State) {
+	if x.topFrame == nil {
+		return
+	}
+	fn := x.topFrame.fn
+	var pkg *types.Package
+	if fn.Pkg != nil {
+		pkg = fn.Pkg.Pkg
+	}
+	for _, p := range fn.Params {
+		v, ok := x.entryRegs[p]
+		if !ok || v.K != VTerm || v.T.Sort != SRef {
+			continue
+		}
+		tms, _ := x.typeInvTerms(st, v, p.Type(), pkg)
+		if len(tms) > 0 {
+			x.enc.trusted["re-entrancy: callees that havoc the heap preserve the type invariants of the receiver/pointer parameters (unexported fields are only reachable through invariant-preserving methods)"] = true
+		}
+		st.assumeAll(tms)
+	}
+}
+
+// havocOpenWorld: a callee about which nothing is known may change the whole heap, except that
+// (assumption, listed) it does not write the fields of the unit's own pointer parameters of module
+// struct types: those are reachable by foreign code only through the module's methods, and the
+// callee is assumed not to call back into mutators of the object being operated on.
+func (x *Exec) havocOpenWorld(st *State) {
+	type keep struct {
+		name string
+		ref  Term
+		val  Term
+	}
+	var keeps []keep
+	if x.topFrame != nil {
+		for _, p := range x.topFrame.fn.Params {
+			v, ok := x.entryRegs[p]
+			if !ok || v.K != VTerm || v.T.Sort != SRef {
+				continue
+			}
+			pt, ok := types.Unalias(p.Type()).Underlying().(*types.Pointer)
+			if !ok || !isStructType(pt.Elem()) {
+				continue
+			}
+			n, ok := types.Unalias(pt.Elem()).(*types.Named)
+			if !ok || n.Obj().Pkg() == nil || !strings.HasPrefix(n.Obj().Pkg().Path(), "github.com/avfs/avfs") {
+				continue
+			}
+			sstruct := n.Underlying().(*types.Struct)
+			for i := 0; i < sstruct.NumFields(); i++ {
+				f := sstruct.Field(i)
+				if isMutexType(f.Type()) || isStructType(f.Type()) {
+					continue
+				}
+				base := fieldArrName(pt.Elem(), f)
+				for k, s := range x.enc.sortsOf(f.Type()) {
+					nm := compName(base, k)
+					arr := st.hget(nm, SArr(SRef, s))
+					keeps = append(keeps, keep{nm, v.T, Select(arr, v.T)})
+				}
+			}
+		}
+	}
+	st.havocAll(nil)
+	for _, kp := range keeps {
+		arr := st.heap[kp.name]
+		st.assume(Eq(Select(arr, kp.ref), kp.val))
+	}
+	if len(keeps) > 0 {
+		x.enc.trusted["encapsulation: unknown callees do not modify the fields of the object the verified method operates on (no call-back into its mutators)"] = true
+	}
+	x.reassumeInvs(st)
 }
